@@ -134,7 +134,7 @@ class C19(Prop):
             # (the last three: text that CONTAINS the text of an import line of the input module without being it)
             "prepend": r.choice([None, None, "PREPENDED = 1\n", '"""Generated module."""\n', "import json\nLEVEL = 2\n",
                                  "import os.path as osp\n", "import sysconfig\nfrom typing import Optional, List\n",
-                                 "NOTE = 'needs import sys and import os'\n"]),
+                                 "NOTE = 'needs import sys and import os'\n", "REGISTRY = {}\nKNOWN = {'a', 'b'}\n"]),
             "use_imports": r.random() < 0.5,
         }
         # how --imports-from-file names the file: its path, the module's name, a symbol of the module / of a module inside
